@@ -45,6 +45,14 @@ pub mod hist_user;
 #[path = "/verif/harness/hist_console.rs"]
 pub mod hist_console;
 
+#[cfg(all(not(kani), test))]
+#[path = "/verif/harness/hist_cache.rs"]
+pub mod hist_cache;
+
+#[cfg(all(not(kani), test))]
+#[path = "/verif/harness/hist_search.rs"]
+pub mod hist_search;
+
 #[path = "/verif/harness/c05.rs"]
 pub mod c05;
 
@@ -97,6 +105,14 @@ mod replay_entry {
         }
         if module == "console" {
             super::hist_console::replay_file();
+            return;
+        }
+        if module == "search" {
+            super::hist_search::replay_file();
+            return;
+        }
+        if module == "cache" {
+            super::hist_cache::replay_file();
             return;
         }
         if module == "user" {
